@@ -14,7 +14,7 @@ ADDR = re.compile(r"0x[0-9a-fA-F]+")
 
 
 def canon(v, depth=0):
-    if depth > 8:
+    if depth > 6:
         return "..."
     if isinstance(v, types.CodeType) or type(v).__name__.startswith("Code") and hasattr(v, "co_code"):
         fields = []
@@ -94,6 +94,8 @@ def snapshot():
         for a, v in sorted(vars(mod).items()):
             if a.startswith("__"):
                 continue
+            if v is vars(mod):
+                continue        # `loc = locals()` at module level: the namespace itself, whose entries are digested one by one
             if isinstance(v, MUTABLE):
                 cells[name + ":" + a] = dig(v)
             elif isinstance(v, types.FunctionType) and v.__module__ == name:
